@@ -79,6 +79,7 @@ std::vector<R> float_operands(u64 nrandom, u64 seed) {
                    std::numeric_limits<R>::max(), -std::numeric_limits<R>::max(), inf, -inf, std::numeric_limits<R>::quiet_NaN(), -std::numeric_limits<R>::quiet_NaN(),
                    std::numeric_limits<R>::epsilon(), R(65), R(1e10), R(-1e-10)};
     for (R x : c) v.push_back(x);
+    v.push_back(std::numeric_limits<R>::signaling_NaN());
     vf::Rng r(seed);
     for (u64 i = 0; i < nrandom; ++i) {
         R m = (R)((ld)(r.next() >> 11) / (ld)(1ull << 53)) + R(0.5);
@@ -191,6 +192,11 @@ __attribute__((noinline)) void run_ops(long id, const char *rname, const char *u
         auto qa = au::make_quantity<U>(la), qb = au::make_quantity<U>(lb);
         // round trip
         { R back{}; VF_PHASE(vf::PH_OPERATION) { back = qa.in(U{}); } g_st.evals++; if (!Bits<R>::same(back, la)) mismatch("roundtrip", a, b, back, la); }
+        // the other spellings of "same unit, same rep": explicit-rep in<R>(unit), coerce_in(unit), data_in(unit)
+        { R b1{}, b2{}, b3{}; VF_PHASE(vf::PH_OPERATION) { b1 = qa.template in<R>(U{}); b2 = qa.coerce_in(U{}); b3 = qa.data_in(U{}); } g_st.evals += 3;
+          if (!Bits<R>::same(b1, la)) mismatch("roundtrip in<R>(unit)", a, b, b1, la);
+          if (!Bits<R>::same(b2, la)) mismatch("roundtrip coerce_in(unit)", a, b, b2, la);
+          if (!Bits<R>::same(b3, la)) mismatch("roundtrip data_in(unit)", a, b, b3, la); }
         if (!RawUB<R>::add(a, b)) VF_CMP("+", (qa + qb).in(U{}), la + lb); else g_st.skipped_raw_ub++;
         if (!RawUB<R>::sub(a, b)) VF_CMP("-", (qa - qb).in(U{}), la - lb); else g_st.skipped_raw_ub++;
         VF_CMP("unary+", (+qa).in(U{}), +la);
@@ -316,10 +322,12 @@ __attribute__((noinline)) void run_roundtrip(long id, const char *rname, u64 sta
         }
         R x; memcpy(&x, buf, Bits<R>::n < sizeof(R) ? sizeof(R) : sizeof(R));
         vf::g_aux0 = pat;
-        R back{};
-        VF_PHASE(vf::PH_OPERATION) { back = au::make_quantity<U>(x).in(U{}); }
-        g_st.evals += 1;
+        R back{}, back2{}, back3{};
+        VF_PHASE(vf::PH_OPERATION) { auto q = au::make_quantity<U>(x); back = q.in(U{}); back2 = q.template in<R>(U{}); back3 = q.coerce_in(U{}); }
+        g_st.evals += 3;
         if (!Bits<R>::same(back, x)) mismatch("roundtrip", x, x, back, x);
+        if (!Bits<R>::same(back2, x)) mismatch("roundtrip in<R>(unit)", x, x, back2, x);
+        if (!Bits<R>::same(back3, x)) mismatch("roundtrip coerce_in(unit)", x, x, back3, x);
     });
     printf("{\"ev\":\"roundtrip\",\"id\":%ld,\"rep\":\"%s\",\"evals\":%llu,\"mm\":%llu,\"wit\":[", id, rname, (unsigned long long)g_st.evals, (unsigned long long)g_st.mm);
     for (int i = 0; i < g_st.nwit; ++i)
@@ -333,6 +341,19 @@ void layout_one(const char *kind, const char *uname, const char *rname) {
     W w{};
     R r{};
     bool zero = memcmp(&w, &r, Bits<R>::n) == 0;
+    // default-initialisation (`W x;`, `new W`, array elements) as opposed to value-initialisation: construct onto storage that is not
+    // already zero and read the bytes back
+    {
+        alignas(W) unsigned char buf[sizeof(W) * 3];
+        memset(buf, 0xA5, sizeof(buf));
+        W *pw = ::new (static_cast<void *>(buf)) W;
+        W *pa = ::new (static_cast<void *>(buf + sizeof(W))) W[2];
+        unsigned char seen[sizeof(W)];
+        memcpy(seen, reinterpret_cast<unsigned char *>(pw), sizeof(W));
+        zero = zero && memcmp(seen, &r, Bits<R>::n) == 0;
+        memcpy(seen, reinterpret_cast<unsigned char *>(pa + 1), sizeof(W));
+        zero = zero && memcmp(seen, &r, Bits<R>::n) == 0;
+    }
     printf("{\"ev\":\"layout\",\"kind\":\"%s\",\"unit\":\"%s\",\"rep\":\"%s\",\"sizeof\":%zu,\"alignof\":%zu,\"rsizeof\":%zu,\"ralignof\":%zu,\"triv_copy\":%d,\"triv_dtor\":%d,\"std_layout\":%d,\"default_is_zero\":%d}\n",
            kind, uname, rname, sizeof(W), alignof(W), sizeof(R), alignof(R), (int)std::is_trivially_copyable<W>::value, (int)std::is_trivially_destructible<W>::value,
            (int)std::is_standard_layout<W>::value, (int)zero);
